@@ -177,7 +177,7 @@ class SignedStream(FM.FormulaStream):
 
 
 def streams():
-    return [StrStream(), HoStream(), SignedStream()]
+    return [StrStream(), HoStream(), SignedStream(), FM.FloatBoundaryStream()]
 
 
 ASSUMPTIONS = [
